@@ -125,6 +125,14 @@ impl VisitMut for OperationTransformVisitor<'_> {
             }
 
             Expr::Tpl(tpl) if tpl_operator_enabled => {
+                if tpl.exprs.iter().any(|tpl_expr| tpl_expr.is_lit()) {
+                    // not instrumented (nor anything nested in it), but its identifiers can still
+                    // clash with the injected variables of this block
+                    tpl.visit_with(&mut VariableRegistrar {
+                        ident_provider: self.ident_provider,
+                    });
+                }
+
                 if !tpl.exprs.is_empty() && tpl.exprs.iter().all(|tpl_expr| !tpl_expr.is_lit()) {
                     let opv_with_child_ctx = &mut *self.with_child_ctx();
                     tpl.visit_mut_children_with(opv_with_child_ctx);
